@@ -508,6 +508,17 @@ func project(op Op, m rmsg) rmsg {
 			out.set(f, m.get(f))
 		}
 	}
+	// paths inside the nested message select its sub-fields - unless the mask names the whole message as
+	// well: by the field mask rules {f, f.c} selects what {f} selects
+	if !keep["f"] && (keep["fc"] || keep["fd"]) && m.f != nil {
+		out.f = &[2]int{}
+		if keep["fc"] {
+			out.f[0] = m.f[0]
+		}
+		if keep["fd"] {
+			out.f[1] = m.f[1]
+		}
+	}
 	return out
 }
 
